@@ -110,6 +110,19 @@ func TestC08(t *testing.T) {
 				cur = c
 				blockIdx++
 				ledgerN = 0
+				// the node that dies may have been stopped in an orderly way and started again just before this block
+				if nb := len(c.Hist.Blocks); nb >= 2 {
+					prev := c.Hist.Blocks[nb-2]
+					if gs, ok := src.(*GenSource); ok && pct(gs.t, 30, "orderlyRestartBefore") {
+						prev.RestartAfter = true
+					}
+					if prev.RestartAfter && c.Sim != nil {
+						if _, perr := c.Sim.Restart(); perr != nil {
+							panic(perr)
+						}
+						st.label("orderly_restarts_of_the_node_that_dies", 1)
+					}
+				}
 				if gs, ok := src.(*GenSource); ok && !allBlocks {
 					// quick tier: all points of ~4 sampled blocks
 					if pct(gs.t, 35, "sampleBlock") {
